@@ -4,6 +4,12 @@ C04 — `&tel` head formulas derive atoms according to temporal here-and-there s
 What is proved (about the model of telingo/theory/head.py, which is tied to the code by comparing
 `create_formula`, `shift_formula`, `unfold_formula` of the implementation with the model on generated head
 formulas — exact equality of representations at every shift):
+  (a) head_doc_eq     the head `create_formula` implements the documented reading: for every head-admissible surface
+                      formula (README operator table, any nesting) the code-level formula built from its theory term
+                      has the specification's THT value `tht` in every world of every interpretation — `>>`, `;>`, `;>:`,
+                      `&initial`/`&final` (double negation), 0-fold and n-fold next included
+  (a)+(b)+(c) head_clauses_mean_formula   the clauses emitted d steps after the formula's own step hold exactly when the
+                      documented formula holds at its step
   (b) unshift_equiv   the formula shifted by d steps (the recursion until → next → shift of `ShiftFormula`)
                       means, d states later, what the formula means now, in every THT world; termination of
                       that recursion is part of the definition's acceptance by Lean
@@ -15,6 +21,7 @@ visible; it is PARTIAL: (b)–(d) are its formula-level and program-level ingred
 incremental grounding is validated by the search against the brute-force THT equilibrium enumerator.
 -/
 import TelProofs.HeadShift
+import TelProofs.HeadDocEq
 import TelProofs.Meta.Shift
 import TelProofs.CoreEquiv
 
@@ -43,6 +50,26 @@ theorem clauses_at_step (h : Nat) (W T : Trace) (d s0 : Nat) (f : HForm) (hk : s
     (unfoldF (shiftF d f)).all (fun c => c.any fun x => hsem h W T x (s0 + d)) = hsem h W T f s0 := by
   rw [unfold_cnf, unshift_equiv h W T d f s0 hk hn]
 
+/-- (a) the head formula construction implements the documented operator table under THT -/
+theorem head_doc_eq (s : SForm) (hok : s.headOk = true) (hg : GoodAtoms s) :
+    ∃ f, hCreateFormula (toTerm s) = .ok f ∧ noShift f = true ∧
+      ∀ (h : Nat) (W T : Trace) (k : Nat), k ≤ h → hsem h (withAdmin h W) (withAdmin h T) f k = tht h W T s k := by
+  obtain ⟨f, hc, hn, hs⟩ := TelProofs.head_doc_eq s hok hg
+  exact ⟨f, hc, hn, hs⟩
+
+/-- (a)+(b)+(c): what the translation emits for a documented head formula `d` steps after its own step `s0` holds in a
+    world exactly when the documented formula holds there at `s0` -/
+theorem head_clauses_mean_formula (s : SForm) (hok : s.headOk = true) (hg : GoodAtoms s) :
+    ∃ f, hCreateFormula (toTerm s) = .ok f ∧
+      ∀ (h : Nat) (W T : Trace) (d s0 : Nat), s0 + d ≤ h →
+        (unfoldF (shiftF d f)).all (fun c => c.any fun x => hsem h (withAdmin h W) (withAdmin h T) x (s0 + d)) =
+          tht h W T s s0 := by
+  obtain ⟨f, hc, hn, hs⟩ := TelProofs.head_doc_eq s hok hg
+  refine ⟨f, hc, ?_⟩
+  intro h W T d s0 hk
+  rw [clauses_at_step h _ _ d s0 f hk hn]
+  exact hs h W T s0 (by omega)
+
 /-- (d) -/
 theorem shift_iff {β : Type} (time : β → Nat) (P : Set (Meta.Rule β)) (hstrat : ∀ r ∈ P, r.stratified time)
     (T : Set β) : Meta.Stable (Meta.shiftProg time P) T ↔ Meta.Stable P T :=
@@ -56,6 +83,7 @@ theorem choice_reading (h : Nat) (W T : Trace) (a : HForm) (k : Nat) :
     hsem h W T (.clause2 a (.neg a) false) k = (hsem h W T a k || !(hsem h T T a k)) := rfl
 
 /-! ### non-vacuity -/
+example : (SForm.rel (.atom "a") (.bin .or (.seqNext true (.atom "b") (.finally_ (.atom "a"))) (.neg (.next 2 false (.kw .kfinal))))).headOk = true := rfl
 
 example : noShift (.until2 (.atom true "a" []) (.clause2 (.atom true "b" []) (.neg (.atom true "c" [])) false) true) = true := rfl
 example : shiftF 1 (.next 1 (.atom true "a" []) false) = .atom true "a" [] := by simp [shiftF]
